@@ -561,6 +561,14 @@ class System:
         # if component/rail name changes, check that it is unique
         if name != comp._params["name"]:
             self._chk_name(comp._params["name"], rail)
+        elif rail != "" and rail != self._g.attrs["rails"][name]:
+            if rail == name:
+                raise ValueError("Component name and rail name cannot be the same!")
+            if (
+                rail in self._g.attrs["nodes"].keys()
+                or rail in self._g.attrs["rails"].values()
+            ):
+                raise ValueError('Rail name "{}" is already used!'.format(rail))
 
         eidx = self._get_index(name)
         # source can only be changed to source
@@ -573,6 +581,12 @@ class System:
             if not isinstance(comp, PMux):
                 raise ValueError("PMux cannot be changed to other type!")
 
+        # a component that has childs cannot become a load
+        if (
+            comp._component_type == _ComponentTypes.LOAD
+            and self._g.out_degree(eidx) > 0
+        ):
+            raise ValueError("Component with childs cannot be changed to a load!")
         # check that parent allows component type as child
         parents = self._get_parents()
         if parents[eidx] != -1:
